@@ -31,7 +31,7 @@ SUFFIXES = ["", "#", ["a"], ["0"], ["~", "/"], ["é", ""], ["m~n", "a/b", "10"],
 
 
 def plan(tier, seed):
-    specs = [{"kind": "exhaustive", "first": t} for t in ALPHABET] + [{"kind": "exhaustive", "first": None}, {"kind": "syntax"}, {"kind": "backslash"}, {"kind": "flags"}, {"kind": "magnitude"}, {"kind": "digit-lookalikes"}]
+    specs = [{"kind": "exhaustive", "first": t} for t in ALPHABET] + [{"kind": "exhaustive", "first": None}, {"kind": "syntax"}, {"kind": "backslash"}, {"kind": "flags"}, {"kind": "magnitude"}, {"kind": "digit-lookalikes"}, {"kind": "threads", "rounds": 40 if tier == "quick" else 400}]
     for _ in range(4 if tier == "quick" else 14):
         specs.append({"kind": "depth3", "n": 6000 if tier == "quick" else 200000})
     return specs
@@ -184,6 +184,53 @@ def run(spec, ctx):
                     elif not o.ok or str(o.value) != want:
                         ctx.violation("application-yields-wrong-pointer:token-list-base", {"from_parts_index": str(idx), "text": text, "steps": steps}, {"relative": text, "base_tokens": [str(x) for x in pre], "got": o.desc() if not o.ok else str(o.value), "expected": want})
         ctx.count("magnitude_combinations", n)
+    elif spec["kind"] == "threads":
+        # FRESH relative pointer objects (nothing has asked for their text yet) shared by 8 threads that print, compare,
+        # hash and apply them at once, with yields injected inside pointer.py
+        from jsonpath import JSONPointer
+
+        from rt.threads import stress
+
+        for _round in range(spec["rounds"]):
+            cases = []
+            for _ in range(6):
+                base = tuple(r.choice(ALPHABET) for _ in range(r.randint(1, 3)))
+                steps, offset, suffix = r.randint(0, len(base)), r.choice(OFFSETS + [0, 0]), r.choice(SUFFIXES)
+                text = rel_text(steps, offset, suffix)
+                try:
+                    toks, marker = rp.rel_apply(list(base), steps, offset, suffix)
+                    want = rp.encode(toks[:-1] + ["#" + toks[-1]]) if marker else rp.encode(toks)
+                except (rp.RelFail, ValueError):
+                    want = None
+                o = impl.call(RelativeJSONPointer, text)
+                if o.ok:
+                    cases.append((o.value, text, rp.encode(base), want))
+            errors = []
+
+            def worker(wid, rr):
+                for rel, text, base_text, want in rr.sample(cases, len(cases)):
+                    what = rr.choice(["str", "eq", "to", "str"])
+                    if what == "str":
+                        got = str(rel)
+                        if got != text:
+                            errors.append({"relative": text, "operation": "str", "got": got})
+                    elif what == "eq":
+                        if not (rel == RelativeJSONPointer(text)):
+                            errors.append({"relative": text, "operation": "== a fresh parse of the same text", "got": False})
+                    elif want is not None:
+                        got = impl.call(lambda: str(rel.to(JSONPointer(base_text))))
+                        if not got.ok or got.value != want:
+                            errors.append({"relative": text, "base": base_text, "operation": "to", "got": got.desc() if not got.ok else got.value, "expected": want})
+
+            st = stress(worker, nthreads=8, files=("pointer.py",), seed=r.random(), prob=0.3)
+            ctx.evaluation(len(cases) * 8)
+            ctx.count("concurrent_uses_of_fresh_relative_pointers", len(cases) * 8)
+            ctx.count("yields_injected", st["yields"])
+            ctx.cell("thread_interleaving_signatures", st["signature"])
+            for e in errors[:2]:
+                ctx.violation("relative-pointer-shared-by-threads-prints-or-applies-wrongly", {"threads": True}, e)
+            if errors:
+                return
     elif spec["kind"] == "digit-lookalikes":
         # last tokens made of characters str.isdigit()/isdecimal()/isnumeric() accept but that are not array indices
         n = 0
@@ -257,6 +304,8 @@ def replay(case, ctx):
         run({"kind": "flags"}, ctx)
     elif case.get("backslash"):
         run({"kind": "backslash"}, ctx)
+    elif case.get("threads"):
+        run({"kind": "threads", "rounds": 150}, ctx)
     elif "from_parts_index" in case or "from_parts" in case:
         run({"kind": "magnitude"}, ctx)
     else:
